@@ -32,7 +32,7 @@ func init() {
 		Level: "exploration",
 		Rule: "E1 bounded-exhaustive enumeration of the kind grammar T ::= scalar | string | [k]T | []T | map[K]T | *T | interface{} | struct{T,…} built with reflect to depth 3 (thorough 4) (every depth-1 type, then W types spread over each level as elements of the next): all 17 scalar kinds (bool, int8..64, int, uint8..64, uint, uintptr, float32/64, complex64/128) at every leaf position of depth-1 composites, a 7-type leaf subset plus 9 types of the previous level for binary structs; arrays of 0 and 2 elements; struct arity 1 and 2; map keys string/int32/uint; " +
 			"values per type from a shape alphabet (slices nil/empty/1/2 elements, maps nil/empty/1/2 entries, pointers nil/non-nil, interfaces nil/scalar/string/pointer/struct, strings \"\",\"a\",\"abc\" and 40 bytes; over leaf types also slices of 9, 70 and 1025 elements and maps of 9, 40 and 1000 entries; pointer values are deliberately REUSED in both elements of arrays and both fields of structs, so shared acyclic pointers occur). Oracle: the generator returns (value, size) and computes the size while building (headers 16/24/8/8/16, 8 for int/uint/uintptr; 64-bit platform asserted). size.Of on every value; Stat(v,d,m) for d in {0,1,3}, m in {0,1,10} and the AvgOf form: the number on the first line equals the expected size. " +
-			"Plus 34 hand-written values (16 of them deep: linked lists of 999..50001 nodes and interface/pointer chains of 1000..10000 boxes) (among them maps whose struct / array / interface keys differ in structural size) of Go types reflect cannot build (unexported and embedded fields, named types, padding, interior pointers of another type into the object being walked - to its first field or element and further in), and a SEQUENCE of 13 values of distinct types that print alike (seven local types all called props.rec, two package-level types both called model.Rec; in pairs also equal in Size and Kind), measured in order by one goroutine, forward then backward: nothing may be carried from one type to a like-named one. A case is one (value, function) pair; non-trivial when the type is composite.",
+			"Plus 34 hand-written values (16 of them deep: linked lists of 999..50001 nodes and interface/pointer chains of 1000..10000 boxes) (among them maps whose struct / array / interface keys differ in structural size) of Go types reflect cannot build (unexported and embedded fields, named types, padding, interior pointers of another type into the object being walked - to its first field or element and further in), and a SEQUENCE of 13 values of distinct types that print alike (seven local types all called props.rec, two package-level types both called model.Rec; in pairs also equal in Size and Kind), measured in order by one goroutine, forward then backward: nothing may be carried from one type to a like-named one; and a SEQUENCE on shared objects in which out-of-domain calls (a chan, a func, an unsafe.Pointer behind pointers: Of and Stat panic, the caller recovers) come between measurements of in-domain values that reach the same pointers: a recovered panic must leave nothing behind. A case is one (value, function) pair; non-trivial when the type is composite.",
 		Assumptions: []string{
 			"64-bit platform (asserted at start)",
 			"types deeper than D, struct arity > 2 and cyclic values are not generated (cycles are excluded by the statement)",
@@ -55,6 +55,9 @@ type c20Type struct {
 	// sequence: the values are measured in order by one goroutine, and a replayed case is
 	// the whole sequence up to its value (state carried between calls is part of the case)
 	sequence bool
+	// pre[i], if any, runs before vals[i] is measured (sequence families only): it may change an object the
+	// value points to and make calls whose outcome is not judged (c20AfterPanic)
+	pre map[int]func()
 }
 
 var c20Iface = reflect.TypeOf((*interface{})(nil)).Elem()
@@ -546,6 +549,63 @@ func c20SameNamed() c20Type {
 	return t
 }
 
+type c20Item struct {
+	Name  string
+	Extra interface{}
+}
+
+type c20Box struct {
+	Tag  int32
+	Item *c20Item
+}
+
+// c20AfterPanic: a SEQUENCE on shared objects in which calls OUTSIDE the domain (a chan, a func, an
+// unsafe.Pointer reached through pointers, slices and maps: Of and Stat panic, the caller recovers, as a caller
+// that does not control its inputs does) come between measurements of values INSIDE it that reach the same
+// pointers. The statement holds for every acyclic value whatever was measured before; a panic must not leave
+// anything behind. The outcome of the out-of-domain calls themselves is not judged.
+func c20AfterPanic() c20Type {
+	t := c20Type{t: reflect.TypeOf(&c20Box{}), composite: true, sequence: true, pre: map[int]func(){}}
+	item := &c20Item{Name: "abc"}
+	box := &c20Box{Tag: 7, Item: item}
+	list := &[]interface{}{int8(1), item}
+	m := map[string]*c20Item{"k": item}
+	try := func(f func()) {
+		defer func() { recover() }()
+		f()
+	}
+	poison := func(bad interface{}, then interface{}) func() {
+		return func() {
+			item.Extra = bad
+			try(func() { size.Of(box) })
+			try(func() { size.Stat(box, 3, 10) })
+			try(func() { size.Of(list) })
+			try(func() { size.Of(m) })
+			item.Extra = then
+		}
+	}
+	itemSz := func(extra int) int { return 8 + (16 + 3) + 16 + extra } // *c20Item: pointer, string, interface slot, dynamic value
+	add := func(x interface{}, sz int, d string, pre func()) {
+		if pre != nil {
+			t.pre[len(t.vals)] = pre
+		}
+		t.vals = append(t.vals, c20Val{reflect.ValueOf(x), sz, d})
+	}
+	add(box, 8+4+itemSz(0), "box before any panic", nil)
+	add(box, 8+4+itemSz(4), "box after Of/Stat panicked on a chan in item.Extra, Extra = int32 now", poison(make(chan int), int32(5)))
+	add(item, itemSz(4), "the item alone", nil)
+	add(list, 8+24+(16+1)+(16+itemSz(4)), "*[]interface{}{int8, item}", nil)
+	add(m, 8+(16+1)+itemSz(4), "map[string]*item", nil)
+	add(box, 8+4+itemSz(16+2), "box after a func in item.Extra, Extra = \"zz\" now", poison(func() {}, "zz"))
+	add(list, 8+24+(16+1)+(16+itemSz(16+2)), "*[]interface{}{int8, item} after the func", nil)
+	var word uint64
+	add(m, 8+(16+1)+itemSz(8), "map[string]*item after an unsafe.Pointer in item.Extra, Extra = uint64 now", poison(unsafe.Pointer(&word), uint64(9)))
+	add(box, 8+4+itemSz(8), "box after the unsafe.Pointer", nil)
+	add(&c20Box{Tag: 7, Item: &c20Item{Name: "abc", Extra: uint64(9)}}, 8+4+itemSz(8), "a fresh box of the same shape", nil)
+	add(box, 8+4+itemSz(0), "box after a chan behind a nested pointer, Extra = nil now", poison(&[]interface{}{make(chan bool)}, nil))
+	return t
+}
+
 // c20Types enumerates the grammar to the given depth, deterministically. width
 // bounds how many types of a level are used as elements of the next one (the
 // first level is always used completely).
@@ -690,7 +750,7 @@ func c20Run(c *mc.Ctx) {
 	c.Set("type_depth", D)
 	c.Set("types", len(types))
 	c.Set("types_per_depth", per)
-	types = append(types, c20Handwritten(), c20SameNamed(), c20IfaceSlots())
+	types = append(types, c20Handwritten(), c20SameNamed(), c20IfaceSlots(), c20AfterPanic())
 	nvals := 0
 	for _, t := range types {
 		nvals += len(t.vals)
@@ -717,6 +777,9 @@ func c20Run(c *mc.Ctx) {
 		t := types[ti]
 		var evals, nontriv, unparsed int64
 		for vi, v := range t.vals {
+			if f := t.pre[vi]; f != nil {
+				f()
+			}
 			g, w, e, u := c20One(v, t.t, t.t == c20Iface)
 			evals += e
 			unparsed += u
@@ -755,7 +818,7 @@ func c20Judge(kind string, cs c20Case) (got, want string) {
 		return fmt.Sprintf("Of=%s%d", p, g), "Of=0"
 	}
 	types, _ := c20Types(cs.Depth, cs.Width)
-	types = append(types, c20Handwritten(), c20SameNamed(), c20IfaceSlots())
+	types = append(types, c20Handwritten(), c20SameNamed(), c20IfaceSlots(), c20AfterPanic())
 	if cs.Path[0] >= len(types) || cs.Path[1] >= len(types[cs.Path[0]].vals) {
 		return "case does not exist in this enumeration", ""
 	}
@@ -766,9 +829,15 @@ func c20Judge(kind string, cs c20Case) (got, want string) {
 	}
 	if t.sequence {
 		// the case is the whole sequence up to this value, measured in order
-		for _, pv := range t.vals[:cs.Path[1]] {
+		for pi, pv := range t.vals[:cs.Path[1]] {
+			if f := t.pre[pi]; f != nil {
+				f()
+			}
 			c20One(pv, t.t, false)
 		}
+	}
+	if f := t.pre[cs.Path[1]]; f != nil {
+		f()
 	}
 	g, w, _, _ := c20One(v, t.t, t.t == c20Iface)
 	return g, w
